@@ -145,6 +145,7 @@ func (s *Search) iterativeDeepen(b *board.Board, opts *Options) (score Score, mo
 }
 
 func (s *Search) abort(opts *Options) bool {
+	simYield(s, opts)
 	if s.aborted {
 		return true
 	}
